@@ -9,6 +9,9 @@ CHECKS = {
  'C01': dict(level='exploration', technique='differential runtime monitor: real Earley parser vs reference chart over generated grammars/inputs; step-budget watchdog for termination',
              text='Every (grammar, lexer, input) execution of the real parser is judged by an independent membership oracle; held means no disagreement on the explored cases (tens of thousands per run), not a proof over all grammars.',
              note='Trusts CPython re per terminal and the reference chart (cross-checked by a second recogniser before any alarm). Termination is a logical step budget.', ref='4 C01'),
+ 'C02': dict(level='exploration', technique='differential runtime monitor: lark LALR(1) (GrammarError, accept/reject, choices()/accepts() per state, debug table, rebuild determinism) vs reference canonical-LR(1)-merged automaton and reference chart',
+             text='For every generated grammar the real LALR construction and parser are compared with an independently built LALR(1) automaton (canonical LR(1) merged by core): reduce/reduce verdict, accept/reject of every input under both lexers, soundness/completeness against the EBNF language, the next-token row and accepts() after a shortest viable prefix to every automaton state, the debug=True table by item-set cores, and equality of the table across repeated constructions.',
+             note='Takes the compiled BNF (Lark.rules) as the grammar of the automaton. Non-reduced grammars judged for soundness only; completeness only on conflict-free grammars; inputs on which the conflict-resolved automaton itself reduces forever are counted, not judged.', ref='4 C02'),
  'C03': dict(level='exploration', technique='differential runtime monitor: trees returned by every engine vs documented shaping applied to reference derivations',
              text='Every returned tree (Earley x3 lexers, LALR x2, CYK; keep_all_tokens/maybe_placeholders on and off) is compared with the set of documented shapings of the reference derivations of the same input; engines must agree on single-derivation inputs. Exploration over generated EBNF grammars using every shaping feature.',
              note='Trusts the reference enumerator and Shaper (written from docs/tree_construction.md); cyclic grammars and grammars with duplicate empty expansions are skipped and counted.', ref='4 C03'),
